@@ -58,9 +58,16 @@ func newWorld(rng *rand.Rand, ntxn, nkeys, nother int) *world {
 	return w
 }
 
-func (w *world) key() uint64    { return uint64(1 + w.rng.Intn(w.nkeys)) }
-func (w *world) oth() uint64    { return w.other[w.rng.Intn(len(w.other))] }
-func (w *world) ttl() uint64    { return []uint64{0, 1, 3, 40}[w.rng.Intn(4)] }
+func (w *world) key() uint64 { return uint64(1 + w.rng.Intn(w.nkeys)) }
+func (w *world) oth() uint64 { return w.other[w.rng.Intn(len(w.other))] }
+
+// ttl: small values around the rank distances, now and then a value at which physical(start)+ttl wraps around 2^64
+func (w *world) ttl() uint64 {
+	if w.rng.Intn(25) == 0 {
+		return []uint64{^uint64(0), ^uint64(0) - 2, 1 << 63, ^uint64(0) - 40}[w.rng.Intn(4)]
+	}
+	return []uint64{0, 1, 3, 40}[w.rng.Intn(4)]
+}
 func (w *world) b(p int) string { return b01(w.rng.Intn(100) < p) }
 func b01(b bool) string {
 	if b {
